@@ -325,6 +325,9 @@ def _run_shard(args):
     import select
     exe, lines, extra_env = args
     env = dict(os.environ)
+    mode = "run"
+    if isinstance(extra_env, tuple):
+        extra_env, mode = extra_env
     env.update(extra_env or {})
     limit = CASE_TIMEOUT * (3 if exe == DRIVER_EXE else 1) * float(env.get("VERIF_CASE_TIMEOUT_FACTOR", "1"))
     out = []
@@ -335,7 +338,7 @@ def _run_shard(args):
             out.extend([NOT_RUN] * (len(lines) - len(out)))
             break
         rest = lines[len(out):]
-        p = subprocess.Popen([exe] + ([] if exe == DRIVER_EXE else ["run"]), stdin=subprocess.PIPE,
+        p = subprocess.Popen([exe] + ([] if exe == DRIVER_EXE else [mode]), stdin=subprocess.PIPE,
                              stdout=subprocess.PIPE, stderr=subprocess.DEVNULL, env=env)
         data = ("\n".join(rest) + "\n").encode("utf-8", "surrogateescape")
 
@@ -386,7 +389,7 @@ def _run_shard(args):
     return out[:len(lines)]
 
 
-def run_lines(exe, lines, shards=NPROC, env=None):
+def run_lines(exe, lines, shards=NPROC, env=None, mode="run"):
     """Run case lines through the harness (`run`) or the driver, sharded over processes."""
     if not lines:
         return []
@@ -394,17 +397,34 @@ def run_lines(exe, lines, shards=NPROC, env=None):
     size = (len(lines) + n - 1) // n
     chunks = [lines[i:i + size] for i in range(0, len(lines), size)]
     with concurrent.futures.ThreadPoolExecutor(max_workers=n) as ex:
-        outs = list(ex.map(_run_shard, [(exe, c, env) for c in chunks]))
+        outs = list(ex.map(_run_shard, [(exe, c, (env, mode)) for c in chunks]))
     return [x for o in outs for x in o]
 
 
-def generate(op, seed, count):
-    # some generators call the real code (printed trees, accepted texts): a change that makes it loop must not hang the check
-    limit = float(os.environ.get("VERIF_GEN_TIMEOUT", "240"))
+# id of the part (props/<part>.json) whose pipeline is running; set by bin/check.  Every op's
+# generator seed is derived from (VERIF_SEED, part id, op name): two parts (or two properties) that
+# use the same op draw different cases, not a common prefix (audit 2, B12).
+PART = ""
+
+
+def derived_seed(op, seed, part=None):
+    part = PART if part is None else part
+    h = hashlib.sha256(f"{seed}|{part}|{op}".encode()).digest()
+    return int.from_bytes(h[:8], "big") >> 1
+
+
+GEN_TIMEOUT = float(os.environ.get("VERIF_GEN_TIMEOUT", "300"))
+
+
+def generate(op, seed, count, part=None):
+    # some generators pre-flight their cases with the code under test (component tables, tame cases): a
+    # change of /repo that makes that code spin would hang `gen`, which has no per-case watchdog
     try:
-        p = subprocess.run([HARNESS_EXE, "gen", op, str(seed), str(count)], stdout=subprocess.PIPE, text=True, timeout=limit)
+        p = subprocess.run([HARNESS_EXE, "gen", op, str(derived_seed(op, seed, part)), str(count)], stdout=subprocess.PIPE,
+                           text=True, timeout=GEN_TIMEOUT)
     except subprocess.TimeoutExpired:
-        raise Broken(f"harness gen {op} did not finish within {limit:g} s (a generator that calls the implementation does not return)")
+        raise Broken(f"harness: `gen {op}` does not return within {GEN_TIMEOUT:.0f} s (its generator runs the code under test, "
+                     "which hangs)")
     if p.returncode != 0:
         raise Broken(f"harness gen {op} failed")
     lines = p.stdout.split("\n")
@@ -442,11 +462,45 @@ def histogram(values, buckets=(2, 5, 10, 20, 40, 80, 160)):
     return h
 
 
+_TOKEN = re.compile(r'"((?:[^"\\]|\\.)*)"|([^\s()"]+)')
+
+
 def tag_histogram(lines, tags):
-    h = {}
-    for t in tags:
-        c = sum(line.count("(" + t + " ") + line.count("(" + t + ")") for line in lines)
-        h[t] = c
+    """occurrences of each tag as a TOKEN of the wire format: a constructor head `(tag ..`, a bare
+    atom (`forward`, `inf`, `true`, ..) or the content of a string (`"V18446744073709551615"`).
+    (The first version counted `(tag ` only, so tags written as atoms or strings read 0: audit 2, B12.)"""
+    tags = [t for t in tags if not t.startswith("@")]
+    h = {t: 0 for t in tags}
+    if not tags:
+        return h
+    want = set(tags)
+    for line in lines:
+        for m in _TOKEN.finditer(line):
+            tok = m.group(1) if m.group(2) is None else m.group(2)
+            if tok in want:
+                h[tok] += 1
+    return h
+
+
+def substring_histogram(lines, subs):
+    """number of lines that contain each substring"""
+    return {t: sum(1 for line in lines if t in line) for t in subs}
+
+
+def feature_histogram(op, inputs, outputs, wanted):
+    """`@name` tags: facts about a case (input and implementation output) computed by the harness
+    itself from the parsed trees (harness/src/features.rs), e.g. `@ug-assumption-private-pred`;
+    returns the number of cases that have each wanted feature (and of every other feature seen)."""
+    wanted = [t for t in wanted if t.startswith("@")]
+    h = {t: 0 for t in wanted}
+    if not wanted:
+        return h
+    lines = [f"{op}\t{i}\t{o}" for i, o in zip(inputs, outputs)]
+    outs = run_lines(HARNESS_EXE, lines, mode="features")
+    for o in outs:
+        for f in set(o.split()):
+            k = "@" + f
+            h[k] = h.get(k, 0) + 1
     return h
 
 
@@ -458,6 +512,24 @@ def write_replay(prop, payload):
     with open(path, "w") as f:
         f.write(blob + "\n")
     return path
+
+
+def git_state(path):
+    """(commit, dirty) of the git tree at `path`; dirty = tracked files differ from HEAD"""
+    try:
+        c = subprocess.run(["git", "-C", path, "rev-parse", "HEAD"], stdout=subprocess.PIPE, stderr=subprocess.DEVNULL, text=True).stdout.strip()
+        d = subprocess.run(["git", "-C", path, "status", "--porcelain", "--untracked-files=no"], stdout=subprocess.PIPE, stderr=subprocess.DEVNULL, text=True).stdout.strip()
+        return c or "unknown", bool(d)
+    except Exception:
+        return "unknown", False
+
+
+def provenance():
+    """which trees this run looked at (audit 2, B12): /repo and /verif commits + dirty flags, UTC time"""
+    rc, rd = git_state(REPO)
+    vc, vd = git_state(VERIF)
+    return {"repo": REPO, "repo_commit": rc, "repo_dirty": rd, "verif": VERIF, "verif_commit": vc, "verif_dirty": vd,
+            "utc": time.strftime("%Y-%m-%dT%H:%M:%SZ", time.gmtime())}
 
 
 def write_evidence(prop, ev):
